@@ -12,6 +12,7 @@ import (
 	"crypto/sha1"
 	"errors"
 	"fmt"
+	"hash/crc32"
 	"io"
 	"math"
 	"reflect"
@@ -114,11 +115,12 @@ func c02PieceCRCs(t *verifh.T, data []byte, pl int64) string {
 			end = off + int(pl)
 		}
 		piece := data[off:end]
-		s := PieceSum(piece)
+		// the oracle is CRC-32/IEEE computed by hash/crc32 itself; both anchored functions must agree with it
+		s := crc32.ChecksumIEEE(piece)
 		h := PieceHash()
 		h.Write(piece)
-		if h.Sum32() != s {
-			t.PropFail("piecehash-piecesum-disagree", verifh.Hex(piece))
+		if h.Sum32() != s || PieceSum(piece) != s {
+			t.PropFail("piece-checksum-not-crc32-ieee", verifh.Hex(piece))
 		}
 		xs = append(xs, strconv.FormatUint(uint64(s), 10))
 		off = end
